@@ -45,6 +45,7 @@ pub fn real_vs_stub() -> serde_json::Value {
     serde_json::json!({
         "tier_lib_real": "everything under /repo/src except util/fileserver.rs::FileServerReal, main.rs, webasm/, util/windows_console.rs — incl. driver.rs (drive_from_commandline, option parsing, output groups), tokenizer, parser, include resolution, matcher, resolver, output builder, all formatters, Report::print_all",
         "tier_lib_stub": "SimFileServer (simulated POSIX disk behind customasm's own FileServer trait), exit-status mapping of main.rs, fd 1/2 captured in memfds; getrandom/clock_gettime replaced by simulator seams",
+        "tier_lib_builds": "release profile (what `cargo install` gives) for every property; for C03 and C14 a further batch in the checked profile (release + overflow-checks + debug-assertions: the arithmetic of `cargo build` / `cargo test`)",
         "tier_proc_real": "the release customasm binary built from /repo's working tree (main.rs, FileServerReal, println!), the kernel's tmpfs path resolution",
         "tier_proc_simulated": "outcomes of intercepted libc calls (statx/stat/open/openat/read/write/close/getrandom/clock_gettime) under an LD_PRELOAD shim"
     })
@@ -113,6 +114,7 @@ fn main() {
                 workers: arg(&args, "--workers").and_then(|s| s.parse().ok()).unwrap_or(16),
                 runs: arg(&args, "--runs").and_then(|s| s.parse().ok()),
                 proc_runs: arg(&args, "--proc-runs").and_then(|s| s.parse().ok()),
+                checked_runs: arg(&args, "--checked-runs").and_then(|s| s.parse().ok()),
                 repo,
                 verif,
             };
